@@ -114,7 +114,7 @@ def check_cfg(job):
         if y.dtype != want_dtype:
             out.append(("dtype", "%s input gives %s output (complex input keeps its precision; real input -> complex64)" % (x.dtype, y.dtype)))
         sc = max(1.0, float(np.abs(ex).max())) if not name.startswith(("huge", "tiny")) else float(np.abs(ex).max())   # extreme magnitudes: purely relative
-        if not np.allclose(y, ex, atol=tol * sc, rtol=0):
+        if not core.allclose(y, ex, atol=tol * sc, rtol=0):
             out.append(("value", "%s input: max |%s(x) - DFT-matrix definition| = %.3g" % (name, cfg["dir"], float(np.abs(y - ex).max()))))
     y_c = fn(x128, oshape=osh, axes=axes, center=cfg["center"], norm=norm)
     # axes / oshape in other containers: lists, and tuples of NumPy integers (what shape arithmetic on arrays produces)
@@ -130,7 +130,7 @@ def check_cfg(job):
     for lab, xv in core.layouts(x128):
         xv0 = xv.copy()
         yv = fn(xv, oshape=osh, axes=axes, center=cfg["center"], norm=norm)
-        if yv.shape != y_c.shape or not np.allclose(yv, y_c, atol=1e-12 * max(1.0, float(np.abs(y_c).max())), rtol=0):
+        if yv.shape != y_c.shape or not core.allclose(yv, y_c, atol=1e-12 * max(1.0, float(np.abs(y_c).max())), rtol=0):
             out.append(("value", "%s input: %s differs from the transform of the same values in C order" % (lab, cfg["dir"])))
         if not np.array_equal(xv, xv0):
             out.append(("input_mutated", "%s modified its %s input" % (cfg["dir"], lab)))
@@ -143,11 +143,11 @@ def check_cfg(job):
             Li = (sp.linop.IFFT if cfg["dir"] == "fft" else sp.linop.FFT)(list(shape), axes=axes, center=cfg["center"])
             Fm, _ = linop_build.dense(Lf, check_i=False)
             want = np.stack([expected(cfg, plan, e_.reshape(shape)).ravel() for e_ in np.eye(x128.size, dtype=np.complex128)], axis=1)
-            if Fm is None or not np.allclose(Fm, want, atol=1e-10):
+            if Fm is None or not core.allclose(Fm, want, atol=1e-10):
                 out.append(("linop", "linop %s differs from the DFT-matrix definition" % cfg["dir"].upper()))
             for lab, op, ref in (("H", Lf.H, want.conj().T), ("H.H", Lf.H.H, want), ("inverse-class", Li, want.conj().T), ("inverse-class.H", Li.H, want), ("N", Lf.N, np.eye(x128.size))):
                 Om, _ = linop_build.dense(op, check_i=False)
-                if Om is None or not np.allclose(Om, ref, atol=1e-10):
+                if Om is None or not core.allclose(Om, ref, atol=1e-10):
                     out.append(("linop", "linop %s(axes=%s, center=%s).%s is not the expected matrix" % (cfg["dir"].upper(), axes, cfg["center"], lab)))
         except Exception as e:
             out.append(("exception", "FFT / IFFT linop raised %r" % (e,)))
@@ -155,7 +155,7 @@ def check_cfg(job):
     if cfg["ortho"] and osh is None:
         y = fn(x128, axes=axes, center=cfg["center"])
         back = inv(y, axes=axes, center=cfg["center"])
-        if not np.allclose(back, x128, atol=1e-10 * max(1.0, np.abs(x128).max())):
+        if not core.allclose(back, x128, atol=1e-10 * max(1.0, np.abs(x128).max())):
             out.append(("roundtrip", "ifft(fft(x)) != x, max err %.3g" % float(np.abs(back - x128).max())))
         if abs(np.linalg.norm(y) - np.linalg.norm(x128)) > 1e-10 * np.linalg.norm(x128):
             out.append(("norm", "orthonormal transform changed the l2 norm by %.3g" % (np.linalg.norm(y) - np.linalg.norm(x128))))
